@@ -100,6 +100,7 @@ class Runner:
         self.native_validated = 0
         self.native_reached = {}
         self.unexplored = 0
+        self.witness_viol = {}
 
     def log(self, *a):
         if self.verbose:
@@ -248,6 +249,14 @@ class Runner:
                     % (unit, json.dumps(w["inputs"])[:300], json.dumps(r["obs_sym"])[:300], json.dumps(r["obs"])[:300])
                 )
             for label, detail in r["failed"]:
+                if label.startswith("witness:"):
+                    # witness-level assertion (C code in the way: json text, isoformat, ...): a failure is a concrete violation on the real code
+                    v = {"label": label, "detail": detail, "inputs": w["inputs"]}
+                    key = (unit, label)
+                    if len(self.witness_viol.setdefault(key, [])) < 3:
+                        self.witness_viol[key].append(v)
+                        self.violations.append((unit, v, self.write_replay(unit, v, r)))
+                    continue
                 kind = "oracle disagreement" if label.startswith("oracle:") else "assertion proved symbolically fails natively"
                 self.harness_errors.append("%s: %s: %s at witness %s %s" % (unit, kind, label, json.dumps(w["inputs"])[:300], detail[-300:]))
 
